@@ -507,6 +507,43 @@ def run(ctx):
              ctx.construct(gn, extra='candidates'),
              'items to re-run are not "unaccepted minus accepted" indexes',
              ctx.loc(gn))
+    # after the items to re-run, every later index up to the item count is
+    # still scheduled (finite-domain evaluation of the tail condition)
+    from mstatic.rules import dt
+    mx = [x for x in own_nodes(gn.node) if isinstance(x, ast.Call) and
+          U.call_name(x) == 'max' and len(x.args) == 1]
+    tails = [x for x in own_nodes(gn.node)
+             if isinstance(x, (ast.AugAssign, ast.Assign)) and
+             any(isinstance(c, ast.Call) and U.call_name(c) == 'range' and
+                 len(c.args) == 2 and U.phas(c.args[0], 'max(___) + 1')
+                 for c in ast.walk(x.value))]
+    cnt = [k for k, v in U._single_defs(gn.node).items()
+           if U.phas(v, 'self._get_with_items_count()') and
+           isinstance(v, ast.Call)]
+    if not mx or len(tails) != 1 or len(cnt) != 1:
+        raise AnalysisError('C07.R8: tail of the next indexes not found')
+    kmax = dt.text(mx[0])
+    rng = (0, 1, 2, 3, 4)
+    cand = dotted(mx[0].args[0]) or norm(mx[0].args[0])
+    tb = dt.Table(ctx, gn, [(kmax, rng), (cnt[0], rng), (cand, (OBJ, ()))],
+                  constraint=lambda d: d[kmax] < d[cnt[0]])
+    tb.undecided(r8, 'the items to re-run and the item count',
+                 force=tails)
+    tn = tb.cfg.stmt_node(tails[0])
+    got = tb.inputs_at(tn)
+    miss = [v for v in tb.init_inputs
+            if v[2] == OBJ and v[0] + 1 < v[1] and v not in got]
+    r8.check(not miss, ctx.construct(gn, tails[0], extra='tail scheduled'),
+             'with items to re-run up to index %s and %s items in total the '
+             'indexes after them are not added: those items are never '
+             'started' % (miss[0][:2] if miss else ('', '')),
+             ctx.loc(gn, tails[0]))
+    rg = [c for c in ast.walk(tails[0].value) if isinstance(c, ast.Call) and
+          U.call_name(c) == 'range'][0]
+    r8.check(norm(U.canon_expr(gn.node, rg.args[1])) in (
+        cnt[0], 'self._get_with_items_count()'),
+        ctx.construct(gn, rg, extra='tail ends at the item count'),
+        'the tail of indexes does not end at the item count', ctx.loc(gn, rg))
     # result shape
     gr = prog.func('mistral.workflow.data_flow.get_task_execution_result')
     cfg = ctx.cfg(gr)
